@@ -21,7 +21,7 @@ RULE = ('cases = (curve, knee set K, ordered expected set E, tolerance / strateg
 ASSUMPTIONS = ['nearest-neighbour ties may be broken either way (every choice explored by the reference)',
                'tolerance comparison uses exact rational distances; the alphabet makes them exactly representable']
 BOUNDS = {'quick': {'curves': 'n=3: y in {0,1,2}, gaps {1,2}; n=4: y{0,1,2} unit gaps and y{0,1} gaps{1,2}; n=5: y{0,1} unit gaps (|E|<=2), y{0,1,2} unit gaps (|E|=1)', 'E': 'ordered, size<=2', 't': '{0,1/4,1/2}'},
-          'thorough': {'curves': 'y in {0,1,2}: n=3,4,5 gaps {1,2}; n=6 unit gaps', 'E': 'ordered, size<=3 (n<=5)', 't': '{0,1/4,1/2,1}'}}
+          'thorough': {'curves': 'n=3,4: y{0,1,2} gaps{1,2} (|E|<=3); n=5: y{0,1,2} unit gaps (|E|<=3), y{0,1} gaps{1,2} (|E|<=2); n=6: y{0,1} unit gaps (|E|<=2)', 'E': 'ordered', 't': '{0,1/4,1/2,1}'}}
 TECHNIQUE = 'bounded-exhaustive enumeration of curves x knee sets x ordered expected sets on the real scoring functions against a reference matcher exploring all tie choices'
 LEVEL_TEXT = ('Model checking: every knee set and every small ordered expected set on every small curve; confusion-matrix identities, greedy one-to-one TP, '
               'nearest-neighbour error means per strategy, ranges of accuracy/F1/MCC and the perfect-detection clauses checked on each.')
@@ -41,7 +41,7 @@ def units(tier, seed):
     if tier == 'quick':
         plan = [('E012', 3, 1, 2), ('E012U', 4, 16, 2), ('E01', 4, 16, 2), ('E01U', 5, 32, 2), ('E012U', 5, 48, 1)]
     else:
-        plan = [('E012', 3, 1, 3), ('E012', 4, 16, 3), ('E012', 5, 256, 2), ('E012U', 5, 64, 3), ('E012U', 6, 128, 2)]
+        plan = [('E012', 3, 1, 3), ('E012', 4, 128, 3), ('E01', 5, 128, 2), ('E012U', 5, 243, 3), ('E01U', 6, 64, 2)]
     return [(prof, n, k, K, emax, xs0, tier) for prof, n, K, emax in plan for k in range(K)]
 
 
